@@ -400,8 +400,20 @@ pub fn replay_inner(path: &Path) -> i32 {
             Some(l) => *l,
             None => return 2,
         };
+        let (seq, own) = seq_digest(check, *tier, *base, indices);
+        if rf.clause != "verdict-depends-on-process-history" {
+            // a violation that needs the runs the worker executed before it
+            crate::exec::cleanup_process_scratch();
+            return if let Some(f) = own.iter().find(|f| f.prop == rf.property && f.clause == rf.clause) {
+                println!("reproduced after {} earlier runs in the same process: {} / {}: {}", indices.len() - 1, f.prop, f.clause, f.detail);
+                println!("VIOLATION property={} replay={}", rf.property, path.display());
+                1
+            } else {
+                println!("did not reproduce");
+                0
+            };
+        }
         let solo = solo_digest(check, *tier, *base, last);
-        let seq = seq_digest(check, *tier, *base, indices);
         crate::exec::cleanup_process_scratch();
         return if solo.is_some() && seq.is_some() && solo != seq {
             println!("reproduced: run index {last} gives event log {:?} alone in a fresh process and {:?} after {} earlier runs in the same process", solo, seq, indices.len() - 1);
@@ -438,15 +450,18 @@ pub fn solo_digest(check: &str, tier: Tier, base: u64, index: u64) -> Option<Str
     text.lines().find_map(|l| l.strip_prefix("log_digest ")).and_then(|r| r.split_whitespace().next()).map(|s| s.to_string())
 }
 
-/// Execute run indices in order in this process; the event-log digest of the last one.
-pub fn seq_digest(check: &str, tier: Tier, base: u64, indices: &[u64]) -> Option<String> {
+/// Execute run indices in order in this process; the event-log digest of the last one and the
+/// violations it reported.
+pub fn seq_digest(check: &str, tier: Tier, base: u64, indices: &[u64]) -> (Option<String>, Vec<Finding>) {
     let scratch = Scratch::new("seq");
     let mut last = None;
+    let mut own = vec![];
     for i in indices {
         let rec = checks::run_one(check, tier, base.wrapping_add(*i), *i, &scratch);
         last = Some(format!("{:016x}", rec.log_digest));
+        own = rec.own.iter().map(|v| v.finding.clone()).collect();
     }
-    last
+    (last, own)
 }
 
 /// Does `trace` violate (prop, clause) when it is the first thing a fresh process executes?
@@ -501,7 +516,11 @@ pub fn replay_file(path: &Path) -> i32 {
             Ok(None) => {}
             Err(_) => break None,
         }
-        if t0.elapsed().as_secs() >= 60 {
+        let limit = match &rf {
+            Some(r) if matches!(r.trace, Trace::SeedSeq { .. }) => 1800,
+            _ => 60,
+        };
+        if t0.elapsed().as_secs() >= limit {
             let _ = child.kill();
             let _ = child.wait();
             let _ = std::fs::remove_file(&tmp);
@@ -707,6 +726,17 @@ pub fn check_main(a: CheckArgs) -> i32 {
             // the trace exactly as the worker executed it
             let rf2 = ReplayFile { minimised: false, trace: v.trace.clone(), ..rf.clone() };
             std::fs::write(&path, serde_json::to_string_pretty(&rf2).unwrap()).expect("write replay");
+            out = std::process::Command::new(std::env::current_exe().unwrap())
+                .args(["replay", path.to_str().unwrap()])
+                .output()
+                .expect("replay subprocess");
+        }
+        if out.status.code() != Some(1) {
+            // last resort: everything the worker executed up to this run, in its order
+            let workers = a.workers.max(1).min(a.runs.max(1));
+            let indices: Vec<u64> = (0..=v.index).filter(|k| k % workers == v.index % workers).collect();
+            let rf3 = ReplayFile { minimised: false, trace: Trace::SeedSeq { check: a.check.clone(), tier: a.tier, base: a.seed, indices }, ..rf.clone() };
+            std::fs::write(&path, serde_json::to_string_pretty(&rf3).unwrap()).expect("write replay");
             out = std::process::Command::new(std::env::current_exe().unwrap())
                 .args(["replay", path.to_str().unwrap()])
                 .output()
